@@ -210,6 +210,12 @@ def r3_recorded(ctx):
                                 ok_flow = _caller_records(prog, f, i)
             ctx.check(ok_flow, f, c, "selector tie resolution recorded under the tied set",
                       f"{{{t}[0]: {t}[1]}} flows into tiebreaks=", f"component 2 (`{t}`) of the selector result never reaches ElectionState(tiebreaks=...)")
+    # (c') later stages hand over the sub-election's own states (their tiebreaks travel with them)
+    for name, pat in (("TopTwo", r"self\.election_states\.append\((\w+)\.election_states\[1\]\)"), ("Alaska", r"self\.election_states \+= (\w+)\.election_states\[1:\]")):
+        f = prog.find_func(f"{name}._run_step")
+        hits = [n for n in astx.walk_own(f.node) if isinstance(n, (ast.Expr, ast.AugAssign)) and re.fullmatch(pat, astx.u(n))]
+        ctx.check(len(hits) == 1, f, hits[0] if hits else f.node, f"{name}: the later stage records the sub-election's own states (with their tiebreaks)", astx.u(hits[0]) if hits else "",
+                  f"{name} does not append the sub-election's recorded state object(s); a rebuilt state can lose the tiebreak record")
     # (c) composite rules forward the sub-election's record
     for name in ("TopTwo", "Alaska"):
         f = prog.find_func(f"{name}._run_step")
@@ -376,11 +382,27 @@ def r5_groups_obey(ctx):
     ctx.check(good, f, rets[0] if rets else f.node, "untied exit returns (elected, ranking[i:], None)", d, f"untied exit returns `{d}`")
 
 
+def r6_genuine_ties(ctx):
+    """A tie is 'equal score': the ranking groups candidates by their exact score (shared with C04.R5)."""
+    from rules import c04
+    sub = type(ctx)(ctx.prog, ctx.prop, ctx.tier)
+    c04.r5_grouping_direction(sub)
+    n = 0
+    for o in sub.obs:
+        if o.function.endswith("score_dict_to_ranking"):
+            o.rule = "C10.R6"
+            ctx.obs.append(o)
+            n += 1
+    if n == 0:
+        ctx.vanished("score_dict_to_ranking grouping obligations")
+
+
 RULES = [
     ("C10.R1", r1_rng_census, 20, "RNG census: draws only at the documented sites; deterministic rules reach only tiebreak_set's draw"),
     ("C10.R2", r2_only_in_tie, 6, "every tiebreak_set call is dominated by a tie test on its argument (or the overshoot test)"),
-    ("C10.R3", r3_recorded, 10, "every resolution flows, keyed by the tied set, into the recorded state's tiebreaks"),
+    ("C10.R3", r3_recorded, 12, "every resolution flows, keyed by the tied set, into the recorded state's tiebreaks"),
     ("C10.R4", r4_fallback, 7, "scored tiebreaks use the right score restricted to the tie; random fallback only among still-tied"),
+    ("C10.R6", r6_genuine_ties, 2, "recorded ties are genuine: candidates are grouped by exact equal score"),
     ("C10.R5", r5_groups_obey, 4, "selector splits the resolution prefix/suffix at one point; untied exit shape"),
 ]
 
@@ -401,6 +423,8 @@ FAULTS = [
     ("borda records under wrong key", [(BO, "                tiebreaks = {tie_resolution[0]: tie_resolution[1]}", "                tiebreaks = {tie_resolution[1][0]: tie_resolution[1]}")], "C10.R3"),
     ("RD tiebreak not recorded", [(RD, "            tiebreaks = {random_ballot.ranking[0]: tiebroken_ranking}\n", "            tiebreaks = {}\n")], "C10.R3"),
     ("toptwo drops sub-election tiebreaks", [(TT, "            tiebreaks = plurality.election_states[-1].tiebreaks", "            tiebreaks = {}")], "C10.R3"),
+    ("toptwo rebuilds the runoff state", [(TT, "                self.election_states.append(plurality.election_states[1])", "                self.election_states.append(ElectionState(round_number=2, elected=plurality.election_states[1].elected, remaining=plurality.election_states[1].remaining, scores=plurality.election_states[1].scores))")], "C10.R3"),
+    ("groups keyed by float(score)", [(UT, "        s: [] for s in score_dict.values()\n    }\n    for c, score in score_dict.items():\n        score_to_cand[score].append(c)", "        float(s): [] for s in score_dict.values()\n    }\n    for c, score in score_dict.items():\n        score_to_cand[float(score)].append(c)")], "C10.R6"),
     ("borda code uses first place", [(UT, "        if tiebreak == \"borda\":\n            tiebreak_scores = borda_scores(profile)", "        if tiebreak == \"first_place\":\n            tiebreak_scores = borda_scores(profile)")], "C10.R4"),
     ("tiebreak scores not restricted", [(UT, "            c: Fraction(score) for c, score in tiebreak_scores.items() if c in r_set", "            c: Fraction(score) for c, score in tiebreak_scores.items()")], "C10.R4"),
     ("fallback always random", [(UT, "    if any(len(s) > 1 for s in new_ranking):\n        print(", "    if any(len(s) >= 1 for s in new_ranking):\n        print(")], "C10.R4"),
